@@ -351,10 +351,11 @@ Print Assumptions C14_x86_compile_asm_wf_lin_needed.
        offsets 16..72, the caller-save bracket of print), LDP/STP of prologue / epilogue -, and every branch target
        within the reach of its form (B.cond / ADR +-1 MiB: the routine is shorter).
        Hypotheses, all boolean on the PROGRAM: labels_guard, lin_check_prog (gives calls_guard), plain names / types,
-       imm_guard_a64 (a type declares at most 1024 xtors: `ADD Xt, Xt, #4k`; a Substitute lists at most 4096 pairs),
+       imm_guard_a64 (a type declares at most 1024 xtors: `ADD Xt, Xt, #4k`),
        reach_guard_a64 (28 + cg_fine_defs 14 74 < 262143 instructions: a two-weight refinement of the size theorem
        of C19, Proof/SizeCodegenFine.v, SizeA64Fine.v).  No hypothesis on
-       literals: every 64-bit pattern is synthesised from half-words.
+       literals: every 64-bit pattern is synthesised from half-words.  No hypothesis on the size of a Substitute: the
+       increment of a reference count is below 4096 because every copy of a variable has its own temporary.
        The xtor bound is a REAL limit (finding): C14_a64_compile_asm_wf_xtors_needed and docs/C14.md; so is the reach
        (a conditional over more than 1 MiB of code: docs/C14.md), which the guard over-approximates.
    (k) per-method lemmas `A64WfAll.W (method args)`; code_small under the size_guard of x86-64. *)
@@ -462,7 +463,7 @@ Print Assumptions C14_a64_compile_asm_wf_nonvacuous.
 Theorem C14_a64_compile_asm_wf_xtors_needed :
   let p := wide_type_prog 1026 in
   labels_guard p = true /\ lin_check_prog p = true /\ plain_names p = true /\ plain_types p = true /\
-  imm_guardP A64_SUBST_MAX 1026 any_lit p = true /\ imm_guard_a64 p = false /\ reach_guard_a64 p = true /\
+  imm_guardP 1026 any_lit p = true /\ imm_guard_a64 p = false /\ reach_guard_a64 p = true /\
   exists cs n lc', A64.a64_compile p 0 = Ok (cs, n, lc') /\
     A64Wf.asm_wf cs = Some "operand not encodable in its instruction form"%string /\
     In (A64.ADDI (A64.X 5) (A64.X 5) 4100) cs.
@@ -476,7 +477,7 @@ Print Assumptions C14_a64_compile_asm_wf_xtors_needed.
        registers x0..x31, ADDI / JALR / LW / SW with a 12-bit signed immediate (field offsets 16..72, reference-count
        increments, the table dispatch), LI with a 64-bit value.  Hypotheses, all boolean on the PROGRAM: labels_guard,
        lin_check_prog (gives calls_guard), imm_guard_rv (literals 64-bit; a type declares at most 512 xtors:
-       `ADDI X1, Xt, 4k`; a Substitute lists at most 2048 pairs).  The xtor bound is a REAL limit (finding):
+       `ADDI X1, Xt, 4k`).  The xtor bound is a REAL limit (finding):
        C14_rv_compile_asm_wf_xtors_needed and docs/C14.md.
    (m) code_small under the size_guard of x86-64. *)
 From SCC Require Import Proof.RVWfAll Proof.RVWfCor Proof.RVHSimExample.
@@ -535,7 +536,7 @@ Print Assumptions C14_rv_compile_asm_wf_nonvacuous.
 Theorem C14_rv_compile_asm_wf_xtors_needed :
   let p := RVWfCor.wide_type_prog 514 in
   labels_guard p = true /\ lin_check_prog p = true /\
-  imm_guardP RV_SUBST_MAX 514 lit64 p = true /\ imm_guard_rv p = false /\
+  imm_guardP 514 lit64 p = true /\ imm_guard_rv p = false /\
   exists cs n lc', RV.rv_compile p 0 = Ok (cs, n, lc') /\
     RVWf.asm_wf cs = Some "operand not encodable in its instruction form"%string /\
     In (RV.ADDI RV.TEMP 5%N 2052) cs.
